@@ -42,6 +42,9 @@ type c07Spec struct {
 	Opt   string `json:"opt,omitempty"`   // readq | writeq
 	Order string `json:"order,omitempty"` // parked-first | set-first
 	Q0    int    `json:"q0"`              // ReadQLen the running survey was started with
+	// held: a (raw) respondent holds surveys and answers them late
+	Proto string `json:"proto,omitempty"` // xrespondent | respondent
+	Hops  int    `json:"hops,omitempty"`  // up to this many device hops before the survey id (vt)
 }
 
 func TestMain(m *testing.M) { hx.Main(m) }
@@ -189,9 +192,25 @@ func TestC07(t *testing.T) {
 		}
 		cases = append(cases, mon.CaseSpec{Name: "raw-survey-in-received-message", Spec: sp})
 	}
+	// ---- a respondent holding surveys (raw: the received Messages) and answering them late ----
+	for i := 0; i < r.Pick(64, 1600); i++ {
+		sp := c07Spec{Mode: "held", Proto: "xrespondent", NPipes: 1 + rnd.Intn(3), NOps: 2 + rnd.Intn(6), Hops: rnd.Intn(3)}
+		if i%4 == 2 {
+			sp.Proto = "respondent"
+		}
+		if i%4 == 3 {
+			sp.Tr, sp.NPipes, sp.NOps, sp.Hops = trs[rnd.Intn(len(trs))], 1+rnd.Intn(3), 2+rnd.Intn(3), 0
+			if i%16 == 15 {
+				sp.Proto = "respondent"
+			}
+		}
+		cases = append(cases, mon.CaseSpec{Name: "holding-respondent", Spec: sp})
+	}
 	r.Run(cases, func(c *mon.Case) {
 		sp := c.Spec.(c07Spec)
 		switch sp.Mode {
+		case "held":
+			c07Held(c, sp)
 		case "reopt":
 			c07ReOpt(c, sp)
 		case "rawmsg":
